@@ -245,7 +245,12 @@ func (z *refLZ) startHuff() {
 	z.prnt[refR] = 0
 }
 
+// number of adaptive-tree rebuilds performed by the reference codec (witness
+// that a kernel reached the rebuild)
+var refReconstCount int
+
 func (z *refLZ) reconst() {
+	refReconstCount++
 	j := 0
 	for i := 0; i < refT; i++ {
 		if z.son[i] >= refT {
